@@ -100,6 +100,11 @@ func main() {
 		switch v.Kind() {
 		case constant.Int:
 			add(name, fmt.Sprintf("def %s : Int := %s", name, v.ExactString()))
+			// a byte-sized integer (rune/byte constants used as storage prefixes) also gets the byte-string form, which is the same
+			// for `'a'` and `"a"`: models and theorems that mean "the prefix bytes" use <name>_bytes
+			if n, ok := constant.Int64Val(v); ok && n >= 0 && n < 256 {
+				add(name+"_bytes", fmt.Sprintf("def %s_bytes : List Nat := [%d]", name, n))
+			}
 		case constant.String:
 			s := constant.StringVal(v)
 			add(name, fmt.Sprintf("def %s : String := %s", name, leanStr(s)))
